@@ -30,7 +30,7 @@ def generate(tier, seed, info):
     for cid in range(1, n_cases + 1):
         pc = rnd.choice([0xffc000, 0x410000, 0x4f0000]) + 2 * rnd.randrange(100)
         er = [isa.rand_val(rnd, 32) for _ in range(8)]
-        er[7] = 0xffff00 - 4 * rnd.randrange(16)
+        er[7] = (0xffff00 - 4 * rnd.randrange(16)) | (rnd.choice([0, 0, 0x12, 0x80, 0xff, rnd.randrange(256)]) << 24)   # the upper byte of SP is not part of the address
         mem = {}
         ops = ["step"]
         masked = False
@@ -66,7 +66,7 @@ def generate(tier, seed, info):
                     # delivered to the installed handler once an RTE restores a CCR with I = 0
                     masked = True
                     ret = pc + 0x40
-                    mem[er[7]] = [rnd.randrange(256) & 0x7f] + [(ret >> 16) & 0xff, (ret >> 8) & 0xff, ret & 0xff]
+                    mem[er[7] & 0xffffff] = [rnd.randrange(256) & 0x7f] + [(ret >> 16) & 0xff, (ret >> 8) & 0xff, ret & 0xff]
                     mem[ret] = [0x40, 0xfe]
                     code += [0x56, 0x70]
                     ops += ["irq:%x" % v, "bnd", "bnd", "step", "bnd", "step", "step"]
